@@ -115,6 +115,16 @@ def wrong_tail(et, v):
     return None
 
 
+def same_structure(t, old, new):
+    """Update.retag succeeds in the Coq model: same shapes and number widths everywhere (strings of any length)"""
+    k = t["k"]
+    if k == "scalar": return len(new) == len(old)
+    if k == "string": return 0 not in new["s"]
+    if k == "struct": return len(new["f"]) == len(old["f"]) and all(same_structure(ft, o, n) for (_, ft), o, n in zip(t["fields"], old["f"], new["f"]))
+    if k == "array": return new["shape"] == old["shape"] and len(new["items"]) == len(old["items"]) and all(same_structure(t["item"], o, n) for o, n in zip(old["items"], new["items"]))
+    return False
+
+
 def shortest(t, v):
     """v with every text replaced by the empty one (an object built from it takes the least space its shape allows)"""
     k = t["k"]
@@ -138,7 +148,17 @@ def gen_case(rng, depth, nops):
         if r < 0.10 or not paths:
             c["ops"].append({"mode": "grow", "extra": rng.choice([1, 64, 1000])}); continue
         if r < 0.16:
-            c["ops"].append({"mode": rng.choice(["misuse_ctx", "misuse_offset"]), "expect": None, "misuse": "wrong-owner"}); continue
+            c["ops"].append({"mode": rng.choice(["misuse_ctx", "misuse_offset"]), "offset": rng.choice([None, "zero", "npzero"]), "expect": None, "misuse": "wrong-owner"}); continue
+        ndp = [(q, qt) for q, qt in paths if qt["k"] == "array" and len(qt["shape"]) > 1 and sum(1 for d in qt["shape"] if d is None) == 1]
+        if 0.19 <= r < 0.22 and ndp:
+            # an integer stands for a LENGTH: for an N-D array the number of items is not the length of its dynamic axis
+            q, qt = rng.choice(ndp)
+            oldv = vget(cur, q)
+            dynlen = oldv["shape"][[d is None for d in qt["shape"]].index(True)]
+            cands = [x for x in (len(oldv["items"]), dynlen + 1, 2 * dynlen) if x != dynlen and x > 0]
+            if cands:
+                c["ops"].append({"mode": "set", "path": [list(s) for s in q], "raw": rng.choice(cands), "via": rng.choice(["handle", "view"]), "expect": None,
+                                 "misuse": "integer-for-an-N-D-array"}); continue
         if r < 0.19 and wrong_tail(t, cur) is not None:
             c["ops"].append({"mode": "misuse_construct_at", "bad": wrong_tail(t, cur), "expect": None, "misuse": "refused-construction-at-reserved-offset"}); continue
         p, et = rng.choice(paths)
@@ -159,8 +179,16 @@ def gen_case(rng, depth, nops):
                 # an object carries its own string capacities; keep the history unambiguous: use it only when
                 # they coincide with the capacities fixed at creation (else the value goes in as plain data)
                 # (when the object's image has another length than the element, only the field-wise reading exists)
+                if form == "xobj" and et["k"] == "struct" and not G.is_static(et) and rng.random() < 0.4 and json.dumps(permute(et, old)) != json.dumps(old):
+                    new = permute(et, nocap(old))      # same total size, the variable-size parts distributed differently
                 rt = retag(et, old, new)
-                if rt is None or not unambiguous(et, rt, source_caps(et, new)):
+                sc = source_caps(et, new)
+                if form == "xobj" and et["k"] == "struct" and same_structure(et, old, new) and L.image_size({"type": et, "value": sc}) == L.image_size({"type": et, "value": old}):
+                    # an object of the struct's class with exactly the element's size is copied as it is: the element
+                    # takes the layout of the SOURCE (its parts may now sit elsewhere inside it)
+                    op = {"mode": "set", "path": [list(s) for s in p], "new": new, "via": via, "form": "xobj", "expect": True, "exact_copy": True}
+                    c["ops"].append(op); cur = vset(cur, p, sc); continue
+                if rt is None or not unambiguous(et, rt, sc):
                     form = "py"
             exp = retag(et, old, new)
             op = {"mode": "set", "path": [list(s) for s in p], "new": new, "via": via, "form": form, "expect": exp is not None}
@@ -244,6 +272,41 @@ def systematic_cases(rng):
                 ops.append(other([n] + [1] * (nd - 1), 80, "np", "view"))
                 ops.append(other([dims[0] + 1] + dims[1:], 90, "py", "view"))
                 out.append({"type": t, "value": v, "prep": dict(prep, kind=rng.choice(["numpy", "bytearray"])), "ops": ops})
+    # a nested struct with several variable-size parts is replaced, as a whole, by an object of its class of the SAME
+    # total size whose parts are distributed differently (copied as it is), then leaves are assigned and read again
+    S = {"k": "string"}; F64 = {"k": "scalar", "name": "Float64"}; I64 = {"k": "scalar", "name": "Int64"}
+    def sv(txt): return {"s": list(txt.encode()), "size": G.slot(len(txt.encode()) + 9)}
+    for variant in range(2):      # (parts whose SHAPES differ are outside the model: an equal-size object of other shapes is copied as well)
+        if variant == 0:
+            fin = [["a", S], ["w", F64], ["b", S]]; vin = {"f": [sv("a-rather-long-string-of-characters"), [0] * 8, sv("b")]}
+        elif variant == 1:
+            it = {"k": "array", "item": S, "shape": [None], "order": [0]}
+            fin = [["names", it], ["w", F64]]; vin = {"f": [{"shape": [3], "items": [sv("a-rather-long-string-of-characters"), sv("b"), sv("cc")]}, [0] * 8]}
+        else:
+            it = {"k": "array", "item": {"k": "array", "item": F64, "shape": [None], "order": [0]}, "shape": [None], "order": [0]}
+            fin = [["rows", it], ["s", S]]
+            vin = {"f": [{"shape": [2], "items": [{"shape": [3], "items": [[0] * 8] * 3}, {"shape": [1], "items": [[1] + [0] * 7]}]}, sv("xy")]}
+        tin = {"k": "struct", "name": G.struct_name(fin), "fields": fin}
+        fo = [["k", I64], ["inner", tin], ["z", I64]]
+        t = {"k": "struct", "name": G.struct_name(fo), "fields": fo}
+        v = {"f": [[1] + [0] * 7, vin, [9] + [0] * 7]}
+        newin = permute(tin, vin)
+        ops = []
+        cur = v
+        for via in ("handle", "view"):
+            sc = source_caps(tin, newin)
+            if L.image_size({"type": tin, "value": sc}) != L.image_size({"type": tin, "value": vget(cur, (("f", 1),))}) or not same_structure(tin, vget(cur, (("f", 1),)), newin):
+                break        # (not an object of exactly the element's size any more)
+            ops.append({"mode": "set", "path": [["f", 1]], "new": newin, "via": via, "form": "xobj", "expect": True, "exact_copy": True})
+            cur = vset(cur, (("f", 1),), sc)
+            # then a leaf inside the re-laid-out part
+            lp = [(q, qt) for q, qt in all_paths(t, cur) if qt["k"] in ("scalar", "string") and len(q) >= 2 and q[0] == ("f", 1)]
+            q, qt = lp[-1]
+            nv = gen_like(rng, qt, vget(cur, q), fit=True)
+            ops.append({"mode": "set", "path": [list(x) for x in q], "new": nv, "via": "handle", "form": "py", "expect": True})
+            cur = vset(cur, q, retag(qt, vget(cur, q), nv))
+            newin = permute(tin, nocap(vget(cur, (("f", 1),))))
+        out.append({"type": t, "value": v, "prep": dict(prep), "ops": ops})
     return out
 
 
@@ -322,6 +385,8 @@ def judge_case(pid, c, r, coq_fail):
                 elif st["bytes"] != prev_bytes or G.strip_sizes(st.get("readback")) != G.strip_sizes(cur):
                     out.append(("C10/value-changed-by-buffer-growth", "object changed while the buffer grew", k))
             prev_bytes = st["bytes"]; continue
+        if pid == "C11" and r.get("parts0") is not None and st.get("parts") is not None and op.get("exact_copy") and st.get("ok"):
+            r["parts0"] = rebase_parts(r["parts0"], st["parts"], op["path"])
         if pid == "C11" and r.get("parts0") is not None and st.get("parts") is not None and st["parts"] != r["parts0"]:
             # "the size of an instance cannot change after creation": whatever the operation was and whether it was
             # accepted or refused, every nested struct / array still reports the (offset, size) it had at creation
@@ -333,7 +398,7 @@ def judge_case(pid, c, r, coq_fail):
         if fitting:
             p = [tuple(s) for s in op["path"]]
             et = sub_ty(t, p)
-            new_cur = vset(cur, p, retag(et, vget(cur, p), op["new"]))
+            new_cur = vset(cur, p, source_caps(et, op["new"]) if op.get("exact_copy") else retag(et, vget(cur, p), op["new"]))
             if pid == "C10":
                 what = None
                 kind = "%s-%s" % (et["k"], "leaf" if et["k"] in ("scalar", "string") else "whole")
@@ -499,6 +564,17 @@ def run(ctx):
 
 
 # ------------------------------------------------------------------ C03 over assignment histories
+def rebase_parts(p0, p1, path):
+    """after an object was copied as it is over the element at `path`: the parts strictly inside that element take the
+    source's layout (new baseline); everything else must be as before (kept from p0 so that a change still shows)"""
+    path = [list(x) for x in path]
+    inside = lambda q: len(q) > len(path) and [list(x) for x in q[:len(path)]] == path
+    if [e[0] for e in p0 if not inside(e[0])] != [e[0] for e in p1 if not inside(e[0])]:
+        return p0
+    return \
+           [(a if not inside(a[0]) else b) for a, b in zip(p0, p1)] if len(p0) == len(p1) else p0
+
+
 def parts_inside_and_disjoint(parts, off, size):
     """parts: [path, offset, size] of nested compound parts: each inside its parent, siblings disjoint"""
     ext = {(): (off, size)}
@@ -546,6 +622,10 @@ def c03_update_histories(ctx, n, depth, nops, shards):
                 sig = ("C03/assignment/bytes-outside-the-object-changed/" + kind, "bytes %s outside the object changed" % st["outside_changed"])
             elif st.get("size_now") != r["size"]:
                 sig = ("C03/assignment/reported-size-no-longer-the-extent/" + kind, "size reported %s, extent reserved %s" % (st.get("size_now"), r["size"]))
+            elif p0 is not None and "parts" in st and op.get("exact_copy") and st.get("ok") and rebase_parts(p0, st["parts"], op["path"]) == st["parts"]:
+                p0 = st["parts"]
+                bad = parts_inside_and_disjoint(p0, r["off"], r["size"])
+                if bad: sig = ("C03/assignment/" + bad[0] + "/" + kind, bad[1])
             elif p0 is not None and "parts" in st and st["parts"] != p0:
                 # the model (C03_assignment_keeps_extent): the extent of every nested part is fixed at creation
                 d = [(a, b2) for a, b2 in zip(p0, st["parts"]) if a != b2][:1]
@@ -690,7 +770,19 @@ def judge_part_copy(c, r):
     return out
 
 
-def c09_part_copies(ctx, n, depth, shards):
+def judge_part_copy_c06(c, r):
+    """C06 on the same runs: the handle the copy constructor returned and a view rebuilt from (buffer, offset) of the
+    copy must read the same at every stage"""
+    if r.get("stage"): return []
+    names = {"0": "copy", "1": "relayout-of-the-original", "2": "write-to-the-copy", "3": "write-to-the-original"}
+    for tag, nm in names.items():
+        if "cp_" + tag in r and r["cp_" + tag] != r["cpview_" + tag]:
+            return [("C06/part-copy/kept-handle-and-fresh-view-differ/after-%s/%s" % (nm, c["where"]),
+                     "handle reads %s, a view rebuilt from (buffer, offset) reads %s" % (json.dumps(r["cp_" + tag])[:120], json.dumps(r["cpview_" + tag])[:120]))]
+    return []
+
+
+def c09_part_copies(ctx, n, depth, shards, pid="C09"):
     rng = random.Random(ctx.seed + 909)
     cases = [part_copy_case(rng, depth) for _ in range(n)]
     sh = (len(cases) + shards - 1) // shards
@@ -703,7 +795,7 @@ def c09_part_copies(ctx, n, depth, shards):
         hist["relayout:" + str(r.get("relayout", r.get("stage")))] += 1
         if r.get("relayout") == "ok": hist["relayout-binary(same size):" + str(r.get("relayout_same_size"))] += 1
         hist["copied-part:" + sub_ty(c["type"], [tuple(x) for x in c["p"]])["k"]] += 1
-        for sig, what in judge_part_copy(c, r):
+        for sig, what in (judge_part_copy(c, r) if pid == "C09" else judge_part_copy_c06(c, r)):
             if sig not in bysig or len(json.dumps(c)) < len(json.dumps(bysig[sig][0])):
                 bysig[sig] = (c, what, r)
     out = [(sig, what, dict(kind="concrete", tie="K-PARTCOPY", case=c, observed={k: v for k, v in r.items() if not k.startswith(("h_", "cp_", "cpview_")) or k in ("cp_1", "cp_write", "h_write")},
@@ -711,7 +803,46 @@ def c09_part_copies(ctx, n, depth, shards):
     return out, dict(part_copies=len(cases), part_copy_distribution=dict(sorted(hist.items())))
 
 
+def c09_string_and_large_copies(ctx):
+    """(a) stand-alone Strings copied into storage that is not zero; (b) objects of more than a megabyte copied across
+    buffers, contexts and buffer kinds.  Returns ([(sig, what, replay)], coverage)."""
+    rng = random.Random(ctx.seed + 9090)
+    strings = []
+    for init in ["", "a", "ab", "abcdefg", "abcdefgh", "hello world", 11, 20]:
+        for where in ("same", "other", "ctx", "otherkind"):
+            strings.append({"init": init, "where": where, "kind": rng.choice(["numpy", "bytearray"]), "pre": rng.choice([0, 3, 8])})
+    sizes = [140001, 300007] if ctx.tier == "quick" else [140001, 300007, 1048583, 2500001]
+    large = [{"n": n, "what": w, "where": wh, "kind": k} for n in sizes for w in ("array", "struct") for wh, k in (("ctx", "numpy"), ("otherkind", "numpy"), ("otherkind", "bytearray"), ("other", "bytearray"), ("same", "numpy"))]
+    rs = run_impl(ctx, "partcopy", {"strings": strings}, tag="strings")["results"]
+    rl = []
+    for part in run_impl_parallel(ctx, "partcopy", [{"large": large[i::4]} for i in range(4)]):
+        rl.append(part["results"])
+    rl = [r for i in range(max(len(x) for x in rl)) for x in rl if i < len(x) for r in [x[i]]]
+    large = [c for i in range((len(large) + 3) // 4) for c in large[4 * i:4 * i + 4]]
+    out = {}
+    for c, r in zip(strings, rs):
+        exp = "" if isinstance(c["init"], int) else c["init"]
+        if r.get("harness"): out.setdefault("C09/string-copy/harness-problem", (r["harness"], c, r)); continue
+        if "exc" in r: out.setdefault("C09/string-copy/raises-%s/%s" % (r["exc"], c["where"]), (r.get("msg"), c, r)); continue
+        if r["cp"] != exp or r["cpview"] != exp:
+            out.setdefault("C09/string-copy/not-equal-to-the-original/%s" % c["where"], ("String(%r) copied reads %r" % (c["init"], r["cp"]), c, r))
+        elif r["same_buffer"] and not (r["cp_extent"][0] + r["cp_extent"][1] <= r["src_extent"][0] or r["src_extent"][0] + r["src_extent"][1] <= r["cp_extent"][0]):
+            out.setdefault("C09/string-copy/storage-overlaps-the-original", ("%s %s" % (r["cp_extent"], r["src_extent"]), c, r))
+    for c, r in zip(large, rl):
+        if r.get("harness"): out.setdefault("C09/large-copy/harness-problem", (r["harness"], c, r)); continue
+        if "exc" in r: out.setdefault("C09/large-copy/raises-%s/%s" % (r["exc"], c["where"]), (r.get("msg"), c, r)); continue
+        if r["differs"] or r["view_differs"] or r["src_changed"]:
+            out.setdefault("C09/large-copy/not-equal-to-the-original/%s-%s" % (c["what"], c["where"]), ("%d of %d numbers differ (first at %s)" % (r["differs"], c["n"], r["first"]), c, r))
+    res = [(sig, what, dict(kind="concrete", tie="K-COPY-PROBE", probe=c, observed=r, how_to_replay="./check C09 --replay <this file>")) for sig, (what, c, r) in sorted(out.items())]
+    return res, dict(string_copies=len(strings), large_copies=len(large))
+
+
 def part_copy_replay(ctx, r):
+    if r.get("tie") == "K-COPY-PROBE":
+        key = "strings" if "init" in r["probe"] else "large"
+        res = run_impl(ctx, "partcopy", {key: [r["probe"]]})["results"][0]
+        print(res); bad = bool(res.get("exc") or res.get("differs") or res.get("view_differs") or (key == "strings" and res.get("cp") != ("" if isinstance(r["probe"]["init"], int) else r["probe"]["init"])))
+        print("REPRODUCED" if bad else "not reproduced"); return 1 if bad else 0
     res = run_impl(ctx, "partcopy", {"cases": [r["case"]]})["results"][0]
     js = judge_part_copy(r["case"], res)
     for sig, what in js: print(sig, "--", what)
